@@ -82,6 +82,10 @@ for what in ("running", "files"):
           "several schedulers run the same job under one file token: a scheduler's TokenFile.watch thread (watching the other scheduler's holding of that job) locks and unlocks the job's lock file inside the scheduler process; POSIX record locks are per process, so this drops the job lock the scheduler holds while starting the job; a foreign watcher then gets the lock, finds no pid file yet, deletes the starting job's token file, and the freed capacity is given to another job (thorough tier, 3 of 15 363 runs)",
           "not small: the watcher threads and the scheduler must not use the same per-process record lock (needs open-file-description locks or an in-process registry of held job locks)")
 
+open_("K05", "C05", "concurrent-submit-new-output", {"none_returned": True, "distinct_outputs": 1},
+      "two user threads of one process submit an identical configuration: ConfigInformation.submit assigns its _taskoutput only after experiment.submit() has registered the job, so a duplicate submitted from the other thread in between gets None instead of the first submission's output (no second job is created, the body runs once); reproduced against /repo by a stand-alone two-thread program (first submitter delayed right after the registration)",
+      "the repair needs the registration and the assignment of the output to be atomic with respect to other submitting threads (a lock in core/objects.py, or building the output before the registration, which changes what a duplicate submission marks): a lock would add scheduling points to every submission and all recorded schedules, found in the last half hour of the work; left to the maintainers")
+
 here = os.path.dirname(os.path.abspath(__file__))
 with open(os.path.join(here, "known_findings.json"), "w") as f:
     json.dump(F, f, indent=1)
